@@ -96,6 +96,11 @@ func newResultGroupJob[T, R any](bufferSize int) *resultGroupJob[T, R] {
 		wgc: helpers.NewWgCounter(bufferSize),
 	}
 
+	// an empty batch has no item left to close the stream
+	if bufferSize == 0 {
+		gj.Response.Close()
+	}
+
 	return gj
 }
 
@@ -131,9 +136,8 @@ func (gj *resultGroupJob[T, R]) Close() error {
 
 	gj.ack()
 	gj.changeStatus(closed)
-	gj.wgc.Done()
-
-	if gj.wgc.Count() == 0 {
+	// only the call that brings the counter to zero closes the shared stream
+	if gj.wgc.Done() {
 		gj.Response.Close()
 	}
 
@@ -159,7 +163,7 @@ type EnqueuedErrGroupJob interface {
 }
 
 func newErrorGroupJob[T any](bufferSize int) *errorGroupJob[T] {
-	return &errorGroupJob[T]{
+	gj := &errorGroupJob[T]{
 		errorJob: errorJob[T]{
 			job: job[T]{
 				wg: sync.WaitGroup{},
@@ -168,6 +172,13 @@ func newErrorGroupJob[T any](bufferSize int) *errorGroupJob[T] {
 		},
 		wgc: helpers.NewWgCounter(bufferSize),
 	}
+
+	// an empty batch has no item left to close the stream
+	if bufferSize == 0 {
+		gj.Response.Close()
+	}
+
+	return gj
 }
 
 func (gj *errorGroupJob[T]) NumPending() int {
@@ -202,9 +213,8 @@ func (gj *errorGroupJob[T]) Close() error {
 
 	gj.ack()
 	gj.changeStatus(closed)
-	gj.wgc.Done()
-
-	if gj.wgc.Count() == 0 {
+	// only the call that brings the counter to zero closes the shared stream
+	if gj.wgc.Done() {
 		gj.Response.Close()
 	}
 
